@@ -24,7 +24,7 @@ func zzSameFields(a, b exif2.Exif) bool {
 	return a.ImageWidth == b.ImageWidth && a.Orientation == b.Orientation && a.Software == b.Software && a.Make == b.Make && a.ISOSpeed == b.ISOSpeed
 }
 
-func zzC06_containers_N() int { return 6 }
+func zzC06_containers_N() int { return 14 }
 func zzC06_containers() {
 	be := zzPart()%2 == 1
 	p := zzPayload(be)
@@ -63,6 +63,22 @@ func zzC06_containers() {
 		b = append(b, 0, 0, 0, 8, 'f', 'r', 'e', 'e')
 		e, _ := DecodeCR3(zzReaderOf(b))
 		zzAssert(zzSameFields(e, ref), "CR3 CMT1: same fields as the bare TIFF payload")
+	default: // HEIF-branded file: ftyp(heic), mdat with k = 0..3 arbitrary bytes before the payload (located by the TIFF header scan)
+		k := zzPart()/2 - 3
+		b := []byte("\x00\x00\x00\x18ftypheic\x00\x00\x00\x00mif1heic")
+		b = append(b, 0, 0, 0, byte(8+k+len(p)+40), 'm', 'd', 'a', 't')
+		pad := zzBytes("pad", 3)
+		b = append(b, pad[:k]...)
+		b = append(b, p...)
+		b = append(b, make([]byte, 40)...)
+		// no TIFF signature may start before the payload (it would legitimately be found first)
+		for i := 24; i < 32+k; i++ {
+			zzAssume(!((b[i] == 'I' && b[i+1] == 'I' && b[i+2] == 0x2a && b[i+3] == 0) || (b[i] == 'M' && b[i+1] == 'M' && b[i+2] == 0 && b[i+3] == 0x2a)))
+		}
+		e, err := Decode(zzReaderOf(b))
+		zzAssert(err == nil && zzSameFields(e, ref), "HEIF (TIFF header located by scanning): same fields as the bare TIFF payload")
+		e2, err2 := DecodeHeif(zzReaderOf(b))
+		zzAssert(err2 == nil && zzSameFields(e2, ref), "DecodeHeif: same fields as the bare TIFF payload")
 	}
 	zzReached("end")
 }
